@@ -56,6 +56,7 @@ type Path struct {
 	Decisions []string
 	Cells     []*Cell
 	SymCells  []*Cell
+	Maps      []*Term // maps allocated on the path (mutated in place as entries are stored)
 }
 
 type Walker struct {
@@ -90,6 +91,7 @@ type Walker struct {
 	aborted   string
 	abortKind string
 	loopCond  bool
+	maps      []*Term // maps allocated on this path
 	Exploded  bool
 	Finite    bool // exact region splitting for compound expressions of one small-domain leaf (finite.go)
 }
@@ -128,6 +130,7 @@ func (w *Walker) Walk(fn *ssa.Function, args []*Term, bindings []*Term) []Path {
 		w.freshN = map[string]int{}
 		w.symCells = map[string]*Cell{}
 		w.defers = nil
+		w.maps = nil
 		p := Path{}
 		func() {
 			defer func() {
@@ -148,6 +151,7 @@ func (w *Walker) Walk(fn *ssa.Function, args []*Term, bindings []*Term) []Path {
 		p.Events = w.events
 		p.Decisions = w.decisions
 		p.Cells = w.cells
+		p.Maps = w.maps
 		for _, c := range w.symCells {
 			p.SymCells = append(p.SymCells, c)
 		}
@@ -848,7 +852,9 @@ func (w *Walker) step(fr *frame, in ssa.Instruction) {
 			w.event(Event{Kind: "mapupdate", Name: m.String(), Args: []*Term{m, k, v}, Pos: x.Pos(), Instr: x, Fn: fn, Depth: depth})
 		}
 	case *ssa.MakeMap:
-		fr.env[x] = &Term{Op: "mapv", Typ: x.Type(), ID: w.fresh("map")}
+		mv := &Term{Op: "mapv", Typ: x.Type(), ID: w.fresh("map")}
+		w.maps = append(w.maps, mv)
+		fr.env[x] = mv
 	case *ssa.MakeSlice:
 		ln := w.val(fr, x.Len)
 		et := x.Type().Underlying().(*types.Slice).Elem()
